@@ -41,7 +41,8 @@ func TestCacheSizeAcrossConfigs(t *testing.T) {
 		c := mcCase{}
 		n := rapid.IntRange(2, 3).Draw(t, "configs")
 		for i := 0; i < n; i++ {
-			c.LimitsKB = append(c.LimitsKB, rapid.SampledFrom([]int{8, 20, 48, 1024}).Draw(t, "limit"))
+			// 0: a size of zero, set on purpose - nothing may be held under it
+			c.LimitsKB = append(c.LimitsKB, rapid.SampledFrom([]int{8, 20, 48, 1024, 0}).Draw(t, "limit"))
 		}
 		c.Stores = rapid.SliceOfN(rapid.Custom(func(t *rapid.T) mcStore {
 			return mcStore{Cfg: rapid.IntRange(0, n-1).Draw(t, "cfg"), Size: rapid.SampledFrom([]int{512, 2048, 4096, 8192}).Draw(t, "size")}
